@@ -226,7 +226,7 @@ class Prov:
             srcs = [self._first(self._orig(g.iter, func, node, depth - 1, stack)) for g in e.generators]
             # last operand: provenance of the element expression (its loop variables resolve to elements of the sources)
             try:
-                elt = self._first(self._orig(e.elt, func, node, depth - 2, stack)) if depth > 3 else ("unknown", norm(e.elt))
+                elt = self._first(self._orig(e.elt, func, node, depth - 1, stack)) if depth > 1 else ("unknown", norm(e.elt))
             except AnalysisError:
                 elt = ("unknown", norm(e.elt))
             return [("op", "comp", srcs + [elt])]
